@@ -233,6 +233,13 @@ func checkC01(src string, withDir, full bool) core.Outcome {
 		}
 		if out != src {
 			if id := layoutKnown(src, out); id != "" {
+				// the deviation has the shape of a listed finding; it is attributed to it only on the inputs
+				// on which that finding was recorded (known_inputs/C01/<finding>.txt)
+				for _, part := range strings.Split(id, "+") {
+					if !core.KnownInput("C01", part, src) {
+						return core.Outcome{Key: "new-input-with-the-shape-of:" + part, Desc: fmt.Sprintf("entry point %s: the output deviates like known finding %s, but this input is not among those recorded for it\n%s", e.name, part, diffDesc(src, out))}
+					}
+				}
 				return core.Outcome{Known: id, Desc: diffDesc(src, out)}
 			}
 			return core.Outcome{Key: c01Key(src, out), Desc: fmt.Sprintf("entry point %s: output differs from canonical input\n%s", e.name, diffDesc(src, out))}
